@@ -146,6 +146,9 @@ def main():
         elif args[i] == "--replay":
             replay = args[i + 1]
             i += 2
+        elif args[i] == "--seed":
+            os.environ["VERIF_SEED"] = args[i + 1]
+            i += 2
         else:
             i += 1
     if tier not in ("quick", "thorough"):
